@@ -338,5 +338,27 @@ func GenPatterns(r *core.Rand, max int, allowNeg bool, paths ...string) []string
 			}
 		}
 	}
+	if len(paths) > 0 && r.P(1, 25) {
+		// bytes that are no glob syntax but reach the regular expression the
+		// matcher compiles for a pattern with a glob: "zz|d/*" matches every
+		// path ending in d/<name>, "d{1}/*" matches d/<name>. Pruning by the
+		// pattern's text must not be applied to them.
+		if q := core.Pick(r, paths); strings.Contains(q, "/") {
+			dir := q[:strings.LastIndex(q, "/")]
+			var pat string
+			if r.P(1, 2) || strings.Contains(dir, "/") {
+				pat = "zz|" + dir[strings.LastIndex(dir, "/")+1:] + "/*"
+			} else {
+				pat = dir + "{1}/*"
+			}
+			if strings.ContainsAny(pat[:len(pat)-2], "*?[]\\^") {
+				return out
+			}
+			out = []string{pat}
+			if allowNeg && r.P(1, 2) {
+				out = []string{strings.SplitN(q, "/", 2)[0], "!" + pat}
+			}
+		}
+	}
 	return out
 }
